@@ -8,7 +8,7 @@ from props.common import load_impl, exc_name, rand_keys, UView
 RULE = ("random nested &/| trees (depth <= 3/4) over equality / conjunction / disjunction leaves (all nine operand-shape pairs occur), "
         "built with the library's own operators; truth table over ALL assignments compared with structural evaluation and with the Lean "
         "model Ds.Prov.Expr.and/or/eval/data3; operands' data compared before/after each operator; ragged lists stored in a Provenance and "
-        "read back row by row. Non-trivial = tree contains both operators or a disjunction operand; distinct = distinct trees.")
+        "read back row by row; plus random op sequences (mention, ==, from_data, union) on unit registries with frozen / lazily growing key and candidate lists vs the model Ds.Units. Non-trivial = tree contains both operators or a disjunction operand; distinct = distinct trees.")
 
 
 def kind(e):
@@ -103,6 +103,60 @@ def run(ctx):
                              broken="corr:Ds.Prov.Expr.and/or / theorems C11_and C11_or")
             elif [[list(l) for l in c] for c in model["ok"]["data3"]] != impl_data:
                 ctx.dist["raw_data_differs"] += 1
+    # ---- the unit / candidate registry behind the expressions (positions are assigned on first mention; frozen lists reject new keys) ----
+    n_reg = 60 if ctx.tier == "quick" else 600
+    for it in range(n_reg):
+        frozen_u = rng.random() < 0.4
+        frozen_c = rng.random() < 0.6
+        keypool = rng.sample(range(-5, 40), rng.randint(2, 5))
+        candpool = rng.sample(range(0, 9), rng.randint(2, 3))
+        us = rng.sample(keypool, rng.randint(1, len(keypool))) if frozen_u else None
+        cs = rng.sample(candpool, rng.randint(1, len(candpool))) if frozen_c else None
+        ops = []
+        for _ in range(rng.randint(3, 10)):
+            r = rng.random()
+            if r < 0.25:
+                ops.append({"mention": rng.choice(keypool)})
+            elif r < 0.7:
+                ops.append({"eq": [rng.choice(keypool), rng.choice(candpool)]})
+            elif r < 0.92:
+                ops.append({"from": [rng.randrange(0, 5), rng.randrange(0, 3)]})
+            else:
+                ops.append({"union": {"units": rng.sample(keypool, rng.randint(1, len(keypool))), "cands": rng.sample(candpool, 1)}})
+        case = dict(part="registry", units=us, cands=cs, ops=ops)
+        real = P.Units(units=us, candidates=cs)
+        outs = []
+        for op in ops:
+            try:
+                if "mention" in op:
+                    real[op["mention"]]
+                    outs.append("ok")
+                elif "eq" in op:
+                    outs.append([int(x) for x in (real[op["eq"][0]] == op["eq"][1]).data.tolist()])
+                elif "from" in op:
+                    e = P.Equality.from_data(np.array(op["from"]), real)
+                    outs.append([e.unit.key, e.value])
+                else:
+                    real.union(P.Units(units=op["union"]["units"], candidates=op["union"]["cands"]))
+                    outs.append("ok")
+            except Exception as ex:  # noqa
+                outs.append({"err": exc_name(ex)})
+        consistent = (list(real.units_index.items()) == [(k, i) for i, k in enumerate(real.units)] and
+                      list(real.candidates_index.items()) == [(k, i) for i, k in enumerate(real.candidates)])
+        # by definition: positions in order of first mention; data = positions; from_data inverts it
+        ctx.case(case, nontrivial=(not frozen_u and any("from" in o for o in ops)), sample=case, part="registry", frozen_units=frozen_u)
+        if not consistent:
+            ctx.mismatch("unit / candidate index dictionaries disagree with the key lists", case, impl=dict(units=list(real.units), index=dict(real.units_index)))
+            continue
+        ans = ctx.model({"op": "units", "units": us, "cands": cs, "ops": ops})
+        if ans is not None:
+            m = ans["ok"]
+            if m["outs"] != outs or m["keys"] != list(real.units) or m["cands"] != list(real.candidates):
+                # a round trip eq -> from must return the same (key, value): decide whether the implementation is wrong by definition
+                bad = None
+                reg_keys = list(us) if us is not None else []
+                ctx.mismatch("unit registry behaves differently from the model Ds.Units (first-mention positions, frozen lists, data/from_data)", case,
+                             impl=dict(outs=outs, keys=list(real.units), cands=list(real.candidates)), model=m, failing_input=True)
     ctx.extra["operand_shape_pairs_seen"] = len(pair_seen)
     return ctx.finish("proof", "Theorems C11_* state that the modelled & and | (with their distribution and wrapping rules) evaluate to the "
                       "conjunction/disjunction of the operands for every operand shape and nesting and that data3/fromData round-trips; this run "
